@@ -103,8 +103,9 @@ func applyEdit(t pipe.Tree, op string) pipe.Tree {
 }
 
 type Case struct {
-	Root bool     `json:"package_in_module_root"`
-	Ops  []string `json:"history"`
+	Root        bool     `json:"package_in_module_root"`
+	Ops         []string `json:"history"`
+	SameProcess bool     `json:"whole_history_in_one_process_and_directory,omitempty"`
 }
 
 func specFor(dir, op string, root bool) pipe.Spec {
@@ -176,6 +177,11 @@ func step(c *core.Ctx, cs Case, t pipe.Tree, op string) (pipe.Tree, map[string]b
 		c.Internal("%v", err)
 		return nil, nil, false
 	}
+	return stepDir(c, cs, dir, t, op)
+}
+
+// stepDir executes one run transition in dir, which holds exactly the tree t.
+func stepDir(c *core.Ctx, cs Case, dir string, t pipe.Tree, op string) (pipe.Tree, map[string]bool, bool) {
 	// pre-run facts, computed by the harness itself
 	sumBefore, hasSum := t["gengo.sum"]
 	recorded := map[string]string{}
@@ -515,12 +521,135 @@ func run(c *core.Ctx) {
 		}
 	}
 	c.Sample(Case{Ops: []string{"run:all", "symlink:b", "run:all", "edit:b", "run:all"}})
+	runHistories(c, c.Pick(4, 5))
+}
+
+// ---------------------------------------------------------------- histories inside ONE process and ONE directory
+//
+// The search above materialises every state in a fresh directory, which decides
+// the property for state that lives in files. State hidden in the process (a
+// memo keyed by directory, a reused universe) only shows when a whole history
+// runs in one process with edits applied in place; those histories are executed
+// by a fresh child process each, over a smaller operation alphabet.
+
+var histOps = []string{"edit:a", "edit:b", "extra:b", "run:all", "run:force", "run:subset-c"}
+
+// syncTree makes dir hold exactly want, rewriting changed files IN PLACE.
+func syncTree(dir string, want pipe.Tree) error {
+	have, err := pipe.ReadTree(dir)
+	if err != nil {
+		return err
+	}
+	for k := range have {
+		if _, ok := want[k]; !ok {
+			if err := os.Remove(filepath.Join(dir, k)); err != nil {
+				return err
+			}
+		}
+	}
+	delta := pipe.Tree{}
+	for k, v := range want {
+		if have[k] != v {
+			delta[k] = v
+		}
+	}
+	return pipe.WriteTree(dir, delta)
+}
+
+func histWorker(args []string) int {
+	var cs Case
+	if err := json.NewDecoder(os.Stdin).Decode(&cs); err != nil {
+		return 2
+	}
+	c := core.NewWorkerCtx("C08", "quick")
+	runHistoryHere(c, cs)
+	if err := c.WriteResult(os.Stdout); err != nil {
+		return 2
+	}
+	return 0
+}
+
+// runHistoryHere executes the whole history in this process, in one directory.
+func runHistoryHere(c *core.Ctx, cs Case) {
+	dir := pipe.TempDir("c08h")
+	defer os.RemoveAll(dir)
+	t := module(cs.Root)
+	if err := pipe.WriteTree(dir, t); err != nil {
+		c.Internal("%v", err)
+		return
+	}
+	var hist []string
+	for _, op := range cs.Ops {
+		sub := Case{Root: cs.Root, Ops: hist, SameProcess: true}
+		if isRun(op) {
+			next, _, ok := stepDir(c, sub, dir, t, op)
+			if !ok {
+				return
+			}
+			t = next
+			c.Trace(1)
+		} else {
+			t = applyEdit(t, op)
+			if err := syncTree(dir, t); err != nil {
+				c.Internal("%v", err)
+				return
+			}
+		}
+		hist = append(hist, op)
+	}
+}
+
+func checkHistory(c *core.Ctx, cs Case) {
+	c.Eval(1)
+	in, _ := json.Marshal(cs)
+	out, errb, err := core.RunWorker("c08hist", in)
+	if err != nil {
+		c.Internal("history worker: %v %s", err, errb)
+		return
+	}
+	if err := c.Absorb(out); err != nil {
+		c.Internal("history worker output: %v", err)
+	}
+	c.Nontrivial("hist" + fmt.Sprint(cs.Ops))
+}
+
+func runHistories(c *core.Ctx, maxLen int) {
+	c.Bound("same_process_history_ops", histOps)
+	c.Bound("same_process_history_max_len", maxLen)
+	core.Explore(c, core.ExploreOpts{Bound: -1}, func(ch *core.Chooser, _ bool) {
+		var ops []string
+		runs := 0
+		for i := 0; i < maxLen; i++ {
+			k := ch.Choose(len(histOps))
+			ops = append(ops, histOps[k])
+			if isRun(histOps[k]) {
+				runs++
+			}
+		}
+		// a history is worth a process only if it ends in a run and has at least two runs
+		if !isRun(ops[len(ops)-1]) || runs < 2 {
+			return
+		}
+		if !c.Next() {
+			return
+		}
+		checkHistory(c, Case{Ops: ops, SameProcess: true})
+	})
 }
 
 func replay(c *core.Ctx, raw json.RawMessage) {
 	var cs Case
 	if err := json.Unmarshal(raw, &cs); err != nil {
 		c.Internal("bad case: %v", err)
+		return
+	}
+	if cs.SameProcess {
+		// the recorded history is a prefix; the failing step is one of the runs that follow it
+		for _, op := range histOps {
+			if isRun(op) {
+				checkHistory(c, Case{Root: cs.Root, Ops: append(append([]string{}, cs.Ops...), op), SameProcess: true})
+			}
+		}
 		return
 	}
 	t := module(cs.Root)
@@ -547,9 +676,10 @@ func replay(c *core.Ctx, raw json.RawMessage) {
 }
 
 func init() {
+	core.RegisterWorker("c08hist", histWorker)
 	core.Register(&core.Prop{
 		ID: "C08", Level: "model_checking", Run: run, Replay: replay,
-		Rule: "explicit-state search: states are real module trees deduplicated by exact content hash, transitions are the 16 listed operations (toggling edits + 5 kinds of real runs), explored to the stated history length from the empty cache, in two layouts; every run transition is judged against the harness' own parse of gengo.sum and its own dirhash of each package directory (skip <=> not Force, entry present, recorded == current), the saved file against the expected sorted lines, and convergence of repeated `run All` is checked from every state up to the stated depth; non-trivial = states reached by >=2 operations",
+		Rule: "explicit-state search: states are real module trees deduplicated by exact content hash, transitions are the 16 listed operations (toggling edits + 5 kinds of real runs), explored to the stated history length from the empty cache, in two layouts; every run transition is judged against the harness' own parse of gengo.sum and its own dirhash of each package directory (skip <=> not Force, entry present, recorded == current), the saved file against the expected sorted lines, and convergence of repeated `run All` is checked from every state up to the stated depth; additionally every history of exactly N operations (ending in a run, >=2 runs) over a 6-operation alphabet is executed inside ONE fresh child process and ONE directory with in-place edits (hidden process state); non-trivial = states reached by >=2 operations",
 		Assumptions: []string{
 			"identical trees have identical futures (the only other input, Go map order, is C04's subject)",
 			"a directory that cannot be hashed (dangling symlink) is an environment fault: the package must never be skipped, its sum line is otherwise unconstrained and it is exempt from 'nothing is regenerated'",
